@@ -16,12 +16,41 @@ TY = gen.TY
 REPRESENTABLE = [t.type_index() for t in grid_object_registry if t.can_be_represented_in_state() and t.__name__ not in ('NoneGridObject',)]
 
 
+_FLIP = [0]
+
+
+def _declared(types, colors):
+    """the sequences handed to a space constructor: lists or tuples (any sequence is a declaration); a list is EXTENDED by the caller right
+    after the space was built -- a space is defined by what it was given, not by what the caller does with its own list afterwards"""
+    _FLIP[0] += 1
+    ts, cs = [grid_object_registry[t] for t in types], [Color(c) for c in colors]
+    if _FLIP[0] % 3 == 1:
+        return tuple(ts), tuple(cs), None
+    return ts, cs, (ts, cs) if _FLIP[0] % 3 == 2 else None
+
+
+def _after(space, given, types, colors):
+    if given is not None:
+        ts, cs = given
+        extra_t = [t for t in grid_object_registry if t not in ts and t.__name__ not in ('NoneGridObject', 'Hidden')]
+        extra_c = [c for c in Color if c not in cs]
+        if extra_t:
+            ts.append(extra_t[-1])
+        if extra_c:
+            cs.append(extra_c[-1])
+        if set(space.object_types) != {grid_object_registry[t] for t in types} or set(space.colors) != {Color(c) for c in colors} | {Color.NONE}:
+            raise AssertionError('the space changed when the caller extended the lists it had passed to the constructor')
+    return space
+
+
 def state_space(types, colors, shape):
-    return StateSpace(Shape(*shape), [grid_object_registry[t] for t in types], [Color(c) for c in colors])
+    ts, cs, given = _declared(types, colors)
+    return _after(StateSpace(Shape(*shape), ts, cs), given, types, colors)
 
 
 def obs_space(types, colors, shape):
-    return ObservationSpace(Shape(*shape), [grid_object_registry[t] for t in types], [Color(c) for c in colors])
+    ts, cs, given = _declared(types, colors)
+    return _after(ObservationSpace(Shape(*shape), ts, cs), given, types, colors)
 
 
 def model_sets(types, colors, is_state):
